@@ -66,6 +66,7 @@ function obs(A,B){
   r.push(Reflect.ownKeys({[A]:1})[0]===B, Object.entries({[B]:1})[0][0]===A, JSON.stringify({[A]:1})===JSON.stringify({[B]:1}));
   r.push((A+B).length, (A+B)===(B+A), [...A].length, B.split("").length);
   r.push(A.localeCompare === B.localeCompare);
+  r.push(UN(JSON.stringify({a:1}, null, A)), UN(JSON.stringify([1,[2]], null, B)), JSON.stringify({a:1}, null, A) === JSON.stringify({a:1}, null, B));
   return r;
 }
 function obsP(X,P,k){
@@ -116,7 +117,8 @@ var obsNames = []string{"typeof",
 	"codePointAt agree", "at(-1) agree", "A[0]===B[0]", "charAt agree",
 	"Reflect.ownKeys", "Object.entries", "JSON.stringify key agree",
 	"(A+B).length", "(A+B)===(B+A)", "[...A].length", "B.split('').length",
-	"same method"}
+	"same method",
+	"JSON.stringify({a:1},null,A)", "JSON.stringify([1,[2]],null,B)", "stringify gap agree"}
 
 var liteNames = []string{"===", "Map.get", "Set.has", "key", "Object.is", "indexOf", "relational", "length", "==", "String.indexOf", "keys()[0]", "includes", "units", "Map set/set", "===(rev)", "Symbol.for", "+''", "startsWith/endsWith"}
 
@@ -212,6 +214,21 @@ func expectedObs(u strref.Str) []interface{} {
 	}
 	esc := strref.ToGoLossy(strref.Escape(u))
 	jq := strref.JSONQuote(u)
+	// JSON.stringify with the string as the gap (its first 10 code units)
+	var gapObj, gapArr interface{} = skip{}, skip{}
+	gap := u
+	if len(gap) > 10 {
+		gap = gap[:10]
+	}
+	if !strref.HasLoneSurrogate(gap) { // a lone surrogate in the gap (also one made by the cut at 10 units) is a known finding of C19
+		a := func(s string) strref.Str { return strref.FromGo(s) }
+		if len(gap) == 0 {
+			gapObj, gapArr = unitsDec(a(`{"a":1}`)), unitsDec(a(`[1,[2]]`))
+		} else {
+			gapObj = unitsDec(strref.Concat(a("{\n"), gap, a("\"a\": 1\n}")))
+			gapArr = unitsDec(strref.Concat(a("[\n"), gap, a("1,\n"), gap, a("[\n"), gap, gap, a("2\n"), gap, a("]\n]")))
+		}
+	}
 	splitLen := int64(2)
 	if l == 0 {
 		splitLen = 0
@@ -239,7 +256,8 @@ func expectedObs(u strref.Str) []interface{} {
 		true, true, true, true,
 		true, true, true,
 		2 * l, true, int64(len(cps)), l,
-		true}
+		true,
+		gapObj, gapArr, true}
 }
 
 func stepListing(c *Case) string {
